@@ -26,8 +26,13 @@ def gen_case(rng, tier, k):
     bnet = common.g_mixed(rng, nmax=nmax, p_core=0.25)
     op = ["bfs", 0, None, None] if rng.random() < 0.5 else ["dfs", 0, None, None]
     prefix = gen_ops(rng, rng.randint(1, 4), allow_unmodelled=True) if rng.random() < 0.4 else []
-    return {"bnet": bnet, "max_motifs": 100000, "ops": prefix + [op], "final_full": True,
+    case = {"bnet": bnet, "max_motifs": rng.choice([100000] * 6 + [2, 3, 4]), "ops": prefix + [op], "final_full": True,
             "judge_leaves_after": ["bfs", "dfs"], "judge_contract": True}
+    if rng.random() < 0.15:
+        # declared (non-alphabetical) variable order, pickled while partially expanded
+        case["order"] = [rng.randrange(64) for _ in range(8)]
+        case["ops"] = [["bfs", 0, rng.randint(0, 1), None], ["pickle"]] + case["ops"]
+    return case
 
 
 def run_case(case):
